@@ -111,6 +111,7 @@ impl Prop for C01 {
         fit_chunks(&mut r.plan, chain_bytes(&scn.chain), 150_000);
         fit_writes(&mut r.plan, chain_bytes(&scn.chain) * 3, 300_000);
         scn.runs = vec![r];
+        super::dress(&mut scn, rng, false);
         h.check(&mut scn)?;
         Ok(())
     }
